@@ -42,7 +42,7 @@ theorem alignedV_batchTF_stable (a0 : Nat) (op : TOp) (f : Bool) (t : Raw) (gs :
   | true =>
     simp only [if_true, torchFunctionAxes, axes?, List.filterMap_cons, List.filterMap_nil, List.any_nil,
       Bool.false_eq_true, if_false]
-    exact alignedV_ffResult a0 r gs a (by rw [hhead]; exact h1) (hprov.trans h3) (h4 rfl)
+    exact alignedV_ffResult a0 r gs a (hprov.trans h3) (h4 rfl)
 
 theorem batchTF_err (op : TOp) (cur : SVal) (other : Option SVal)
     (h : torchSem op cur.raw (other.map SVal.raw) = .err) : batchTorchFunction op cur other = .err .torch := by
